@@ -81,3 +81,53 @@ Theorem C10_open_closes_on_failure : open_all_ok = true.
 Proof. exact open_functions_close_on_failure. Qed.
 
 Print Assumptions C10_open_closes_on_failure.
+
+(* THE TIE BY TRANSLATION for the login dialogues: authenticateSSH and authenticateTelnet as the
+   source has them on this run — one round of each loop evaluated for every combination of what can
+   happen in it (1024 + 256 rounds; every test known) — take the decisions of the model's rounds
+   ([C10_auth_ssh_round], [C10_auth_telnet_round]): error messages first (ssh), then the prompt
+   (success with everything read), then the password prompt, then the passphrase / user-name
+   prompt; the matching credential is written redacted and followed by a return; the count of that
+   prompt goes up and one prompt too many is an authentication error (wrapping util.ErrAuthError);
+   the buffer is reset after an answer; every transport error is passed on as it is. *)
+From Scrapli Require Import DecideLang GeneratedSkel AuthSrc.
+Theorem C10_auth_is_source :
+  as_table_ok = true /\ at_table_ok = true
+  /\ tests_known auth_ssh_code auth_ssh_known = true /\ tests_known auth_telnet_code auth_telnet_known = true.
+Proof. exact auth_is_source. Qed.
+
+Theorem C10_auth_ssh_round : forall f cfg ap pw pp b pc ppc,
+  auth_ssh_loop (S f) cfg ap pw pp b pc ppc
+  = Until (CSshAuth b [c_prompt cfg; ap_pass ap; ap_passphrase ap])
+      (fun nb =>
+         let b := b ++ nb in
+         if ssh_error b then Fail EConnection
+         else if rx_match (c_prompt cfg) b then Ret b
+         else if rx_match (ap_pass ap) b then
+                if Nat.ltb password_seen_max (S pc) then Fail EAuth
+                else Write pw true (Write (c_ret cfg) false (auth_ssh_loop f cfg ap pw pp [] (S pc) ppc))
+         else if rx_match (ap_passphrase ap) b then
+                if Nat.ltb passphrase_seen_max (S ppc) then Fail EAuth
+                else Write pp true (Write (c_ret cfg) false (auth_ssh_loop f cfg ap pw pp [] pc (S ppc)))
+         else auth_ssh_loop f cfg ap pw pp b pc ppc)
+      Fail.
+Proof. exact auth_ssh_round. Qed.
+
+Theorem C10_auth_telnet_round : forall f cfg ap user pw b uc pc,
+  auth_telnet_loop (S f) cfg ap user pw b uc pc
+  = Until (CAnyPrompt [c_prompt cfg; ap_user ap; ap_pass ap])
+      (fun nb =>
+         let b := b ++ nb in
+         if rx_match (c_prompt cfg) b then Ret b
+         else if rx_match (ap_user ap) b then
+                if Nat.ltb username_seen_max (S uc) then Fail EAuth
+                else Write user true (Write (c_ret cfg) false (auth_telnet_loop f cfg ap user pw [] (S uc) pc))
+         else if rx_match (ap_pass ap) b then
+                if Nat.ltb password_seen_max (S pc) then Fail EAuth
+                else Write pw true (Write (c_ret cfg) false (auth_telnet_loop f cfg ap user pw [] uc (S pc)))
+         else auth_telnet_loop f cfg ap user pw b uc pc)
+      Fail.
+Proof. exact auth_telnet_round. Qed.
+Print Assumptions C10_auth_is_source.
+Print Assumptions C10_auth_ssh_round.
+Print Assumptions C10_auth_telnet_round.
